@@ -1,8 +1,301 @@
-(* Proofs/PnsProofs.v — lemmas about Model/Pns.v (C20). *)
-From Coq Require Import ZArith QArith Qround Qabs List Bool Arith Lia Lqa.
+(* Proofs/PnsProofs.v — lemmas about Model/Pns.v (C20).  All statements are for arbitrary sample
+   lists (any length), weights, time constants; proofs by induction over the lists. *)
+From Coq Require Import ZArith QArith Qround Qabs Qpower List Bool Arith Lia Lqa Setoid Morphisms.
 From PV Require Import Base.QUtil Gen.GenPns Model.Pns.
 Import ListNotations.
 Open Scope Q_scope.
 
-Lemma pct_cancel : pct * unpct == 1.
+Lemma Qmult_le_l' x y z : 0 <= z -> x <= y -> z * x <= z * y.
+Proof. intros. rewrite (Qmult_comm z x), (Qmult_comm z y). apply Qmult_le_compat_r; assumption. Qed.
+
+(* ---------------------------------------------------------------------------------------------- *)
+(* lists of rationals up to Qeq *)
+Definition leq (l1 l2 : list Q) : Prop := Forall2 Qeq l1 l2.
+
+Lemma leq_refl l : leq l l.
+Proof. induction l; constructor; [reflexivity|assumption]. Qed.
+Lemma leq_sym l1 l2 : leq l1 l2 -> leq l2 l1.
+Proof. induction 1; constructor; [symmetry; assumption|assumption]. Qed.
+Lemma leq_trans l1 l2 l3 : leq l1 l2 -> leq l2 l3 -> leq l1 l3.
+Proof.
+  intros H; revert l3; induction H; intros l3 H3; inversion H3; subst; constructor.
+  - etransitivity; eassumption.
+  - apply IHForall2; assumption.
+Qed.
+Global Instance leq_Equiv : Equivalence leq.
+Proof. split; [exact leq_refl|exact leq_sym|exact leq_trans]. Qed.
+
+Lemma leq_length l1 l2 : leq l1 l2 -> length l1 = length l2.
+Proof. induction 1; simpl; congruence. Qed.
+Lemma leq_app l1 l2 m1 m2 : leq l1 l2 -> leq m1 m2 -> leq (l1 ++ m1) (l2 ++ m2).
+Proof. induction 1; simpl; intros Hm; [assumption|constructor; [assumption|apply IHForall2; assumption]]. Qed.
+Lemma leq_map (f g : Q -> Q) l1 l2 :
+  (forall a b, a == b -> f a == g b) -> leq l1 l2 -> leq (map f l1) (map g l2).
+Proof. intros Hf; induction 1; simpl; constructor; [apply Hf; assumption|assumption]. Qed.
+Lemma leq_map_ext (f g : Q -> Q) l : (forall a, f a == g a) -> leq (map f l) (map g l).
+Proof. intros Hf; induction l; simpl; constructor; [apply Hf|assumption]. Qed.
+Lemma leq_zipw (f g : Q -> Q -> Q) l1 l2 m1 m2 :
+  (forall a b c d, a == b -> c == d -> f a c == g b d) ->
+  leq l1 l2 -> leq m1 m2 -> leq (zipw f l1 m1) (zipw g l2 m2).
+Proof.
+  intros Hf H; revert m1 m2; induction H; intros m1 m2 Hm; simpl; [constructor|].
+  inversion Hm; subst; constructor; [apply Hf; assumption|apply IHForall2; assumption].
+Qed.
+Lemma leq_nth l1 l2 k : leq l1 l2 -> nth k l1 0 == nth k l2 0.
+Proof. intros H; revert k; induction H; intros [|k]; simpl; try reflexivity; [assumption|apply IHForall2]. Qed.
+Lemma leq_of_nth l1 l2 : length l1 = length l2 ->
+  (forall k, (k < length l1)%nat -> nth k l1 0 == nth k l2 0) -> leq l1 l2.
+Proof.
+  revert l2; induction l1 as [|a l1 IH]; intros [|b l2] Hl Hn; simpl in *; try discriminate; constructor.
+  - apply (Hn 0%nat); lia.
+  - apply IH; [lia|]. intros k Hk. apply (Hn (S k)); lia.
+Qed.
+Lemma leq_select m l1 l2 : leq l1 l2 -> leq (select m l1) (select m l2).
+Proof.
+  intros H; revert m; induction H; intros [|[|] m]; simpl; try constructor; try assumption; apply IHForall2.
+Qed.
+
+Lemma zeros_app a b : zeros (a + b) = zeros a ++ zeros b.
+Proof. unfold zeros. apply repeat_app. Qed.
+Lemma length_zeros n : length (zeros n) = n.
+Proof. apply repeat_length. Qed.
+Lemma length_zipw f l1 l2 : length (zipw f l1 l2) = Nat.min (length l1) (length l2).
+Proof. revert l2; induction l1; intros [|b l2]; simpl; auto. Qed.
+Lemma nth_zipw f l1 l2 k : (k < length l1)%nat -> (k < length l2)%nat ->
+  nth k (zipw f l1 l2) 0 = f (nth k l1 0) (nth k l2 0).
+Proof.
+  revert l2 k; induction l1; intros [|b l2] [|k]; simpl; intros; try lia; auto. apply IHl1; lia.
+Qed.
+Lemma Forall_zeros n : Forall (fun z => z == 0) (zeros n).
+Proof. induction n; simpl; constructor; [reflexivity|assumption]. Qed.
+
+(* ---------------------------------------------------------------------------------------------- *)
+(* causal scans *)
+Lemma length_scan f h x : length (scan f h x) = length x.
+Proof. revert h; induction x; simpl; intros; auto. Qed.
+Lemma scan_app f h l1 l2 : scan f h (l1 ++ l2) = scan f h l1 ++ scan f (rev l1 ++ h) l2.
+Proof.
+  revert h; induction l1; simpl; intros; [reflexivity|].
+  rewrite IHl1. rewrite <- app_assoc. reflexivity.
+Qed.
+Lemma nth_scan f h x k : (k < length x)%nat ->
+  nth k (scan f h x) 0 = f (rev (firstn (S k) x) ++ h).
+Proof.
+  revert h k; induction x as [|a x IH]; intros h k Hk; simpl in Hk; [lia|].
+  destruct k as [|k].
+  - simpl. reflexivity.
+  - cbn [scan nth]. rewrite IH by lia. f_equal.
+    change (firstn (S (S k)) (a :: x)) with (a :: firstn (S k) x).
+    cbn [rev]. rewrite <- app_assoc. reflexivity.
+Qed.
+Lemma leq_scan f g h1 h2 x1 x2 :
+  (forall a b, leq a b -> f a == g b) -> leq h1 h2 -> leq x1 x2 -> leq (scan f h1 x1) (scan g h2 x2).
+Proof.
+  intros Hf Hh Hx; revert h1 h2 Hh; induction Hx; intros h1 h2 Hh; simpl; constructor.
+  - apply Hf. constructor; assumption.
+  - apply IHHx. constructor; assumption.
+Qed.
+(* outputs only depend on f at histories no longer than the data seen *)
+Lemma scan_ext_len f g h x :
+  (forall a, (length a <= length h + length x)%nat -> f a == g a) -> leq (scan f h x) (scan g h x).
+Proof.
+  revert h; induction x as [|a x IH]; intros h Hf; simpl; constructor.
+  - apply Hf. simpl. lia.
+  - apply IH. intros b Hb. apply Hf. simpl in *. lia.
+Qed.
+Lemma scan_hist_pad f h0 Z x :
+  (forall h, f (h ++ Z) == f h) -> leq (scan f (h0 ++ Z) x) (scan f h0 x).
+Proof.
+  intros Hf; revert h0; induction x as [|a x IH]; intros h0; simpl; constructor.
+  - apply (Hf (a :: h0)).
+  - apply (IH (a :: h0)).
+Qed.
+
+(* ---------------------------------------------------------------------------------------------- *)
+(* the filter: Horner forms *)
+Fixpoint qpow (r : Q) (n : nat) : Q := match n with O => 1 | S n' => r * qpow r n' end.
+Fixpoint hsumn (r : Q) (n : nat) (H : list Q) : Q :=
+  match n, H with
+  | S n', a :: H' => a + r * hsumn r n' H'
+  | _, _ => 0
+  end.
+Definition hsum (r : Q) (H : list Q) : Q := hsumn r (length H) H.
+
+Lemma qpow_Qpower r n : Qpower r (Z.of_nat n) == qpow r n.
+Proof.
+  induction n.
+  - reflexivity.
+  - rewrite Nat2Z.inj_succ. unfold Z.succ. rewrite Z.add_comm.
+    rewrite Qpower_plus' by lia. rewrite IHn. simpl. reflexivity.
+Qed.
+Lemma qpow_nonneg r n : 0 <= r -> 0 <= qpow r n.
+Proof. intros Hr; induction n; simpl; [lra|]. apply Qmult_le_0_compat; assumption. Qed.
+
+Global Instance hsumn_Proper : Proper (Qeq ==> eq ==> leq ==> Qeq) hsumn.
+Proof.
+  intros r1 r2 Hr n1 n2 <- H1 H2 HH. revert H1 H2 HH.
+  induction n1; intros H1 H2 HH; simpl; [reflexivity|].
+  inversion HH; subst; [reflexivity|]. rewrite (IHn1 _ _ H0), Hr, H. reflexivity.
+Qed.
+
+Lemma dotp_powers c r n H : dotp (powers_from c r n) H == c * hsumn r n H.
+Proof.
+  revert c H; induction n; intros c H; cbn [powers_from dotp hsumn]; [ring|].
+  destruct H as [|a H]; [ring|].
+  rewrite Qred_correct, IHn, Qred_correct. ring.
+Qed.
+Lemma hsumn_ge r n H : (length H <= n)%nat -> hsumn r n H = hsum r H.
+Proof.
+  unfold hsum. revert n; induction H as [|a H IH]; intros n Hn.
+  - destruct n; reflexivity.
+  - destruct n; simpl in Hn; [lia|]. simpl. rewrite IH by lia. reflexivity.
+Qed.
+Lemma hsum_cons r a H : hsum r (a :: H) = a + r * hsum r H.
 Proof. reflexivity. Qed.
+Lemma hsum_split r n H : hsum r H == hsumn r n H + qpow r n * hsum r (skipn n H).
+Proof.
+  revert H; induction n; intros H.
+  - simpl. destruct H; ring.
+  - destruct H as [|a H]; [simpl; unfold hsum; simpl; ring|].
+    rewrite hsum_cons. cbn [hsumn skipn qpow]. rewrite (IHn H). ring.
+Qed.
+Lemma hsumn_zeros r n Z : Forall (fun z => z == 0) Z -> hsumn r n Z == 0.
+Proof.
+  intros HZ; revert n; induction HZ; intros [|n]; cbn [hsumn]; try reflexivity.
+  rewrite H, IHHZ. ring.
+Qed.
+Lemma hsumn_app_zeros r n H Z : Forall (fun z => z == 0) Z -> hsumn r n (H ++ Z) == hsumn r n H.
+Proof.
+  intros HZ. revert H; induction n; intros H; [reflexivity|].
+  destruct H as [|a H].
+  - cbn [app]. rewrite hsumn_zeros by assumption. reflexivity.
+  - cbn [app hsumn]. rewrite IHn. reflexivity.
+Qed.
+Lemma hsumn_scale r n c H : hsumn r n (map (Qmult c) H) == c * hsumn r n H.
+Proof.
+  revert H; induction n; intros H; cbn [hsumn map]; [ring|]. destruct H; cbn [hsumn map]; [ring|]. rewrite IHn. ring.
+Qed.
+
+(* bound: a convex combination never exceeds the input bound *)
+Lemma hsum_bound alpha M H : 0 <= alpha -> alpha <= 1 -> 0 <= M ->
+  Forall (fun v => Qabs v <= M) H -> Qabs (alpha * hsum (1 - alpha) H) <= M.
+Proof.
+  intros Ha0 Ha1 HM HH. induction HH as [|a H Ha HH IH].
+  - assert (E : alpha * hsum (1 - alpha) [] == 0) by (unfold hsum; cbn [length hsumn]; ring).
+    rewrite E. exact HM.
+  - rewrite hsum_cons.
+    setoid_replace (alpha * (a + (1 - alpha) * hsum (1 - alpha) H))
+      with (alpha * a + (1 - alpha) * (alpha * hsum (1 - alpha) H)) by ring.
+    eapply Qle_trans; [apply Qabs_triangle|].
+    rewrite (Qabs_Qmult alpha a), (Qabs_Qmult (1 - alpha) (alpha * hsum (1 - alpha) H)).
+    rewrite (Qabs_pos alpha) by assumption. rewrite (Qabs_pos (1 - alpha)) by lra.
+    apply Qle_trans with (alpha * M + (1 - alpha) * M); [|ring_simplify; lra].
+    apply Qplus_le_compat; apply Qmult_le_l'; try assumption; lra.
+Qed.
+
+(* ---------------------------------------------------------------------------------------------- *)
+(* safe_tau_lowpass: truncated FIR vs the recursive filter *)
+Definition firF (alpha : Q) (n : nat) : list Q -> Q := fun h => Qred (alpha * dotp (filt alpha n) h).
+Lemma firF_spec alpha n h : firF alpha n h == alpha * hsumn (1 - alpha) n h.
+Proof. unfold firF, filt. rewrite Qred_correct, dotp_powers. ring. Qed.
+Lemma fir_as_scan alpha n x : lowpass_fir alpha n x = scan (firF alpha n) [] x.
+Proof. reflexivity. Qed.
+
+Lemma iir_scan alpha x : forall hist y, y == alpha * hsum (1 - alpha) hist ->
+  leq (iir_go alpha y x) (scan (fun h => alpha * hsum (1 - alpha) h) hist x).
+Proof.
+  induction x as [|a x IH]; intros hist y Hy; cbn [iir_go scan]; constructor.
+  - rewrite Qred_correct, Hy, hsum_cons. ring.
+  - apply IH. rewrite Qred_correct, Hy, hsum_cons. ring.
+Qed.
+Lemma iir_as_scan alpha x : leq (lowpass_iir alpha x) (scan (fun h => alpha * hsum (1 - alpha) h) [] x).
+Proof. apply iir_scan. unfold hsum; cbn [length hsumn]. ring. Qed.
+Lemma length_iir_go alpha y x : length (iir_go alpha y x) = length x.
+Proof. revert y; induction x; intros; simpl; auto. Qed.
+
+Lemma fir_full_is_iir alpha n x : (length x <= n)%nat -> leq (lowpass_fir alpha n x) (lowpass_iir alpha x).
+Proof.
+  intros Hn. etransitivity; [|symmetry; apply iir_as_scan].
+  rewrite fir_as_scan. apply scan_ext_len. intros a Ha. cbn [length] in Ha.
+  rewrite firF_spec. rewrite hsumn_ge by lia. reflexivity.
+Qed.
+
+Lemma nth_fir alpha n x k : (k < length x)%nat ->
+  nth k (lowpass_fir alpha n x) 0 == alpha * hsumn (1 - alpha) n (rev (firstn (S k) x)).
+Proof. intros Hk. rewrite fir_as_scan, nth_scan by assumption. rewrite app_nil_r. apply firF_spec. Qed.
+Lemma nth_iir alpha x k : (k < length x)%nat ->
+  nth k (lowpass_iir alpha x) 0 == alpha * hsum (1 - alpha) (rev (firstn (S k) x)).
+Proof.
+  intros Hk. rewrite (leq_nth _ _ k (iir_as_scan alpha x)). rewrite nth_scan by assumption.
+  rewrite app_nil_r. reflexivity.
+Qed.
+
+Lemma In_skipn {A} n (l : list A) v : In v (skipn n l) -> In v l.
+Proof. intros H. rewrite <- (firstn_skipn n l). apply in_or_app. right. assumption. Qed.
+Lemma In_firstn {A} n (l : list A) v : In v (firstn n l) -> In v l.
+Proof. intros H. rewrite <- (firstn_skipn n l). apply in_or_app. left. assumption. Qed.
+
+Lemma fir_truncation_bound_pow alpha n x M k :
+  0 <= alpha -> alpha <= 1 -> Forall (fun v => Qabs v <= M) x -> (k < length x)%nat ->
+  Qabs (nth k (lowpass_fir alpha n x) 0 - nth k (lowpass_iir alpha x) 0) <= M * qpow (1 - alpha) n.
+Proof.
+  intros Ha0 Ha1 HM Hk.
+  assert (HM0 : 0 <= M).
+  { destruct x as [|v x]; [simpl in Hk; lia|]. inversion HM; subst.
+    eapply Qle_trans; [apply Qabs_nonneg|eassumption]. }
+  rewrite nth_fir, nth_iir by assumption. set (H := rev (firstn (S k) x)).
+  rewrite (hsum_split (1 - alpha) n H).
+  setoid_replace (alpha * hsumn (1 - alpha) n H
+                  - alpha * (hsumn (1 - alpha) n H + qpow (1 - alpha) n * hsum (1 - alpha) (skipn n H)))
+    with (- (qpow (1 - alpha) n * (alpha * hsum (1 - alpha) (skipn n H)))) by ring.
+  rewrite Qabs_opp, Qabs_Qmult. rewrite (Qabs_pos (qpow (1 - alpha) n)) by (apply qpow_nonneg; lra).
+  rewrite Qmult_comm. apply Qmult_le_compat_r; [|apply qpow_nonneg; lra].
+  apply hsum_bound; try assumption.
+  apply Forall_forall. intros v Hv. rewrite Forall_forall in HM. apply HM.
+  apply In_skipn in Hv. unfold H in Hv. apply in_rev in Hv. eapply In_firstn; eassumption.
+Qed.
+Lemma fir_truncation_bound alpha n x M k :
+  0 <= alpha -> alpha <= 1 -> Forall (fun v => Qabs v <= M) x -> (k < length x)%nat ->
+  Qabs (nth k (lowpass_fir alpha n x) 0 - nth k (lowpass_iir alpha x) 0) <= M * (1 - alpha) ^ (Z.of_nat n).
+Proof. intros. rewrite qpow_Qpower. apply fir_truncation_bound_pow; assumption. Qed.
+
+(* the difference-of-two-recursive-filters form used by the runner for larger cases *)
+Lemma nth_firstn_lt {A} (l : list A) m k d : (k < m)%nat -> nth k (firstn m l) d = nth k l d.
+Proof.
+  revert m k; induction l as [|a l IH]; intros [|m] [|k] Hk; simpl; try lia; auto. apply IH; lia.
+Qed.
+Lemma nth_shiftr n y k : (k < length y)%nat ->
+  nth k (shiftr n y) 0 = if (k <? n)%nat then 0 else nth (k - n) y 0.
+Proof.
+  intros Hk. unfold shiftr. rewrite nth_firstn_lt by assumption.
+  destruct (k <? n)%nat eqn:E.
+  - apply Nat.ltb_lt in E. rewrite app_nth1 by (rewrite length_zeros; assumption). apply nth_repeat.
+  - apply Nat.ltb_ge in E. rewrite app_nth2 by (rewrite length_zeros; assumption).
+    rewrite length_zeros. reflexivity.
+Qed.
+Lemma length_shiftr n y : length (shiftr n y) = length y.
+Proof. unfold shiftr. rewrite firstn_length, app_length, length_zeros. lia. Qed.
+Lemma length_fir alpha n x : length (lowpass_fir alpha n x) = length x.
+Proof. apply length_scan. Qed.
+Lemma length_iir alpha x : length (lowpass_iir alpha x) = length x.
+Proof. apply length_iir_go. Qed.
+Lemma length_fast alpha n x : length (lowpass_fast alpha n x) = length x.
+Proof. unfold lowpass_fast. rewrite length_zipw, length_shiftr, length_iir. lia. Qed.
+
+Lemma fir_fast_eq alpha n x : leq (lowpass_fast alpha n x) (lowpass_fir alpha n x).
+Proof.
+  apply leq_of_nth; [rewrite length_fast, length_fir; reflexivity|].
+  rewrite length_fast. intros k Hk. unfold lowpass_fast.
+  rewrite nth_zipw by (rewrite ?length_shiftr, length_iir; assumption).
+  rewrite nth_shiftr by (rewrite length_iir; assumption).
+  rewrite Qred_correct, Qred_correct, qpow_Qpower, nth_fir, nth_iir by assumption.
+  set (H := rev (firstn (S k) x)).
+  assert (LH : length H = S k) by (unfold H; rewrite rev_length, firstn_length; lia).
+  destruct (k <? n)%nat eqn:E.
+  - apply Nat.ltb_lt in E. rewrite hsumn_ge by lia. ring.
+  - apply Nat.ltb_ge in E. rewrite nth_iir by lia.
+    rewrite (hsum_split (1 - alpha) n H).
+    assert (ES : skipn n H = rev (firstn (S (k - n)) x)).
+    { unfold H. rewrite skipn_rev, firstn_firstn, firstn_length. f_equal. f_equal. lia. }
+    rewrite ES. ring.
+Qed.
